@@ -25,14 +25,16 @@ Definition IP6_FlowLabel : getter := fun p =>
 Definition IP6_PayloadLen : getter := fun p => rbe16 p 4.
 Definition IP6_NextHeader : getter := fun p => rbyte p 6.
 Definition IP6_HopLimit : getter := fun p => rbyte p 7.
-Definition IP6_Payload : getter := fun p => rfrom p 40.
+(* p[IP6HeaderLen : IP6HeaderLen+int(p.PayloadLen())]   (repaired: was p[40:], which included trailing padding) *)
+Definition IP6_Payload : getter := fun p => pl <- IP6_PayloadLen_n p ;; rsl p 40 (40 + N.to_nat pl).
 Definition IP6_HeaderLen : getter := fun _ => Ok (VN 40).
 (* FastLog: Version Src Dst NextHeader PayloadLen HopLimit TrafficClass *)
 Definition IP6_String : getter :=
   calls [IP6_Version; IP6_Src; IP6_Dst; IP6_NextHeader; IP6_PayloadLen; IP6_HopLimit; IP6_TrafficClass].
-(* len(p) >= 40 && int(p.PayloadLen()+IP6HeaderLen) == len(p)   -- uint16 addition *)
+(* len(p) >= 40 && int(p.PayloadLen())+IP6HeaderLen <= len(p)
+   (repaired: was int(p.PayloadLen()+IP6HeaderLen) == len(p), rejecting every packet with trailing bytes) *)
 Definition IP6_IsValid (p : slice) : res bool :=
-  andr (Ok (40 <=? lenN p)) (pl <- IP6_PayloadLen_n p ;; Ok (u16 (pl + 40) =? lenN p)).
+  andr (Ok (40 <=? lenN p)) (pl <- IP6_PayloadLen_n p ;; Ok (pl + 40 <=? lenN p)).
 
 Definition IP6_getters : gtable :=
   [("Dst", IP6_Dst); ("FlowLabel", IP6_FlowLabel); ("HeaderLen", IP6_HeaderLen); ("HopLimit", IP6_HopLimit);
